@@ -19,6 +19,12 @@ def registry_contract(chk, prog):
     def harness(ex, ob):
         ids = [ex.fresh_uuid('sub%d' % i) for i in range(NIDS)]
         chans = {}
+        # an awaiter that has already fired (its owner cancels it later, as the pull loop does on every iteration): on one subscription or none
+        stale_i = ex.choose(NIDS + 1) - 1
+        stale = None
+        if stale_i >= 0:
+            stale = ex.call_named(A + 'PublishAwaiter', [ids[stale_i]])
+            ex.call_named(A + 'WakePublishListeners', [False, ex.mkslice([ids[stale_i]])])
         for i, s in enumerate(ids):
             k = ex.choose(3)           # 0, 1 or 2 waiters on this subscription
             chans[i] = [ex.call_named(A + 'PublishAwaiter', [s]) for _ in range(k)]
@@ -30,6 +36,8 @@ def registry_contract(chk, prog):
             if pick < len(allch):
                 cancelled = allch[pick]
                 ex.call_named(A + 'CancelPublishAwaiter', [ids[cancelled[0]], cancelled[1]])
+        if stale is not None:
+            ex.call_named(A + 'CancelPublishAwaiter', [ids[stale_i], stale])      # cancelling what already fired must not touch the others
         # wake an arbitrary non-empty sub-list (order matters: all permutations of 1..3 ids)
         import itertools
         lists = [list(p) for n in range(1, NIDS + 1) for p in itertools.permutations(range(NIDS), n)]
@@ -46,14 +54,14 @@ def registry_contract(chk, prog):
             bad = any((i in wl) and not all(closed[i]) for i in range(NIDS) if closed[i])
             return bad, path
         d = lambda m: {'waiters_per_subscription': {str(i): len(chans[i]) for i in chans}, 'woken_ids_in_order': wl,
-                       'cancelled': None if cancelled is None else cancelled[0]}
+                       'cancelled': None if cancelled is None else cancelled[0], 'already fired awaiter cancelled on subscription': stale_i if stale_i >= 0 else None}
         for i in chans:
             for j, c in enumerate(chans[i]):
                 if cancelled is not None and cancelled[1] is c:
                     ob.verify(ex, 'cancelled-waiter-not-closed', not c.closed, d)
                     continue
                 if i in wl:
-                    ob.verify(ex, 'every-waiter-of-every-listed-subscription-woken', c.closed, d, replay=(rp if cancelled is None else None), known=known_pred)
+                    ob.verify(ex, 'every-waiter-of-every-listed-subscription-woken', c.closed, d, replay=(rp if (cancelled is None and stale is None) else None), known=known_pred)
                 else:
                     ob.verify(ex, 'unlisted-subscription-not-woken', not c.closed, d)
         ob.reached(ex)
